@@ -1803,6 +1803,10 @@ func HandleInviteNewChat(cc *hotline.ClientConn, t *hotline.Transaction) (res []
 
 	// Check if target user has "Refuse private chat" flag
 	targetClient := cc.Server.ClientMgr.Get([2]byte(targetID))
+	// The user may have left since the check above.
+	if targetClient == nil {
+		return cc.NewErrReply(t, "That user is not connected any more.")
+	}
 	flagBitmap := big.NewInt(int64(binary.BigEndian.Uint16(targetClient.Flags[:])))
 	if flagBitmap.Bit(hotline.UserFlagRefusePChat) == 1 {
 		res = append(res,
